@@ -16,7 +16,7 @@ from vf.core import quiet
 
 
 def dense(ift, op, cplx=False, mode="times"):
-    A = op if mode == "times" else op.adjoint
+    A = op if mode == "times" else (op.inverse if mode == "inverse" else op.adjoint)
     dom = A.domain
     cols = []
     n = dom.size
@@ -74,6 +74,24 @@ def check_spec_instance(ift, inst):
         elif k == "pyslice":
             n, a, b, st = sh
             ops = [("SplitOperator", ift.SplitOperator(ift.RGSpace(n), {"s": (slice(a, b, st),)}))]
+        elif k == "fftshift":
+            n1, n2, a1, a2 = sh
+            ops = []
+            if n2 == 1:
+                ops.append(("FFTShiftOperator on RG(n)", ift.FFTShiftOperator(ift.RGSpace(n1))))
+            else:
+                two = (ift.RGSpace(n1), ift.RGSpace(n2, 0.5))
+                spaces = tuple(i for i, a in enumerate((a1, a2)) if a)
+                ops.append(("FFTShiftOperator on (RG(n1), RG(n2)) spaces=%s" % (spaces,), ift.FFTShiftOperator(two, spaces=spaces if len(spaces) > 1 else spaces[0])))
+                if a1 and a2:
+                    ops.append(("FFTShiftOperator on RG(n1, n2)", ift.FFTShiftOperator(ift.RGSpace((n1, n2)))))
+                    ops.append(("FFTShiftOperator on (RG(n1), RG(n2)) spaces=None", ift.FFTShiftOperator(two)))
+                elif a2:
+                    ops.append(("FFTShiftOperator on (U(n1), RG(n2)) spaces=-1", ift.FFTShiftOperator((ift.UnstructuredDomain(n1), ift.RGSpace(n2)), spaces=-1)))
+        elif k == "mf2vec":
+            from nifty.cl.operators.multifield2vector import Multifield2Vector
+            na, nb1, nb2 = sh
+            ops = [("Multifield2Vector", Multifield2Vector(ift.MultiDomain.make({"a": ift.RGSpace(na), "b": ift.RGSpace((nb1, nb2))})))]
         else:
             return []
     except Exception as e:
@@ -94,6 +112,13 @@ def check_spec_instance(ift, inst):
             out.append("%s %s: matrix %s, expected %s" % (name, sh, np.round(got, 6).tolist(), np.round(Ex, 6).tolist()))
         elif not np.allclose(gadj, Ex.T, atol=1e-13):
             out.append("%s %s: the adjoint is not the transpose" % (name, sh))
+        if k == "fftshift":
+            try:
+                ginv = dense(ift, op, mode="inverse")
+                if not np.allclose(ginv @ Ex, np.eye(Ex.shape[0]), atol=1e-13):
+                    out.append("%s %s: the inverse does not undo the shift" % (name, sh))
+            except Exception as e:
+                out.append("%s %s: the inverse raised %s: %s" % (name, sh, type(e).__name__, str(e)[:100]))
         if k == "slice" and name == "SliceOperator" and abs(op.target[0].distances[0] - 0.5) > 1e-15:
             out.append("SliceOperator %s: the distances are not preserved" % sh)
     return out
@@ -165,8 +190,29 @@ def catalogue(ift):
         ("PartialConjugate", lambda: ift.PartialConjugate(md, ["a"]) if hasattr(ift, "PartialConjugate") else _partial_conjugate(ift, md)),
         ("LOSResponse", lambda: ift.LOSResponse(G23, np.array([[0.1, 0.3], [0.2, 2.9]]), np.array([[0.9, 0.2], [2.8, 0.4]]))),
         ("Nufft", lambda: ift.Nufft(G4, np.array([[0.3], [1.1], [-0.7]]), eps=1e-12)),
+        ("FuncConvolutionOperator(RGSpace)", lambda: ift.FuncConvolutionOperator(G6, lambda x: np.exp(-(3. * x) ** 2))),
+        ("FuncConvolutionOperator(RGSpace 2d, space=1)", lambda: ift.FuncConvolutionOperator((U2, G23), lambda x: 1. / (1. + x ** 2), space=1)),
+        ("FuncConvolutionOperator(GLSpace)", lambda: ift.FuncConvolutionOperator(ift.GLSpace(4), lambda x: np.exp(-x ** 2))),
+        ("FuncConvolutionOperator(HPSpace)", lambda: ift.FuncConvolutionOperator(ift.HPSpace(2), lambda x: np.exp(-x ** 2))),
+        ("Multifield2Vector", lambda: _mf2v(ift)(md)),
+        ("FFTShiftOperator", lambda: ift.FFTShiftOperator((U2, ift.RGSpace((3, 4))), spaces=1)),
+        ("JaxLinearOperator", lambda: _jaxlin(ift, G3, U2)),
+        ("Gridder", lambda: ift.Gridder(ift.RGSpace((4, 4), (0.5, 0.5)), uv=np.array([[0.1, 0.2], [-0.3, 0.4], [0.25, -0.15]]), eps=1e-10)),
     ]
     return C
+
+
+def _mf2v(ift):
+    import importlib
+    return importlib.import_module("nifty.cl.operators.multifield2vector").Multifield2Vector
+
+
+def _jaxlin(ift, dom, tgt):
+    import jax
+    jax.config.update("jax_enable_x64", True)
+    import jax.numpy as jnp
+    A = jnp.asarray([[1., -2., .5], [0., 3., 1.]])
+    return ift.JaxLinearOperator(dom, tgt, lambda x: A @ x, func_T=lambda y: A.T @ y)
 
 
 def _slo(ift):
@@ -180,7 +226,8 @@ def _partial_conjugate(ift, md):
     return pc.PartialConjugate(md, ["a"])
 
 
-REAL_LINEAR = {"ConjugationOperator", "Realizer", "Imaginizer", "PartialConjugate", "Nufft"}
+REAL_LINEAR = {"ConjugationOperator", "Realizer", "Imaginizer", "PartialConjugate", "Nufft", "Gridder"}
+COMPLEX_TO_REAL = ("Nufft", "Gridder")       # complex visibilities -> real image
 
 
 def check_laws(ift, name, mk, rs):
@@ -196,12 +243,10 @@ def check_laws(ift, name, mk, rs):
         return _mk(ift, dom, v)
     rl = name.split("(")[0] in REAL_LINEAR
     for cplx in (False, True):
-        if name in ("LOSResponse", "LinearInterpolator", "MaskOperator", "Nufft") and cplx and name != "Nufft":
-            pass
         if name == "Imaginizer" and not cplx:
             continue              # takes complex input by definition
         try:
-            x, y = rnd(op.domain, cplx or name == "Nufft"), rnd(op.target, cplx and name not in ("Nufft", "Imaginizer"))
+            x, y = rnd(op.domain, cplx or name in COMPLEX_TO_REAL), rnd(op.target, cplx and name not in COMPLEX_TO_REAL + ("Imaginizer",))
             x0 = _flat(ift, x).copy()
             Ax = op(x)
             if Ax.domain is not op.target:
@@ -213,7 +258,7 @@ def check_laws(ift, name, mk, rs):
             scale = max(1., abs(lhs))
             if (abs(lhs.real - rhs.real) if rl else abs(lhs - rhs)) > 1e-9 * scale:
                 out.append("%s (%s input): <y, A x> = %s but <A^H y, x> = %s" % (name, "complex" if cplx else "real", np.round(lhs, 9), np.round(rhs, 9)))
-            x2 = rnd(op.domain, cplx or name == "Nufft")
+            x2 = rnd(op.domain, cplx or name in COMPLEX_TO_REAL)
             a = 1.7 if rl or not cplx else 1.7 - 0.4j
             lin = _flat(ift, op(a * x + x2)) - (a * _flat(ift, Ax) + _flat(ift, op(x2)))
             if np.max(np.abs(lin)) > 1e-9 * max(1., np.max(np.abs(_flat(ift, Ax)))):
@@ -233,8 +278,8 @@ def check_laws(ift, name, mk, rs):
     return out
 
 
-KINDS = ("contract", "transpose", "valins", "dtins", "slice", "pyslice")
-LAWS = "INVARIANT RowSumsOne\nINVARIANT InRange\nINVARIANT PartialPermutation\nINVARIANT MaskOrder\nINVARIANT IsPermutation\nINVARIANT SliceLength\n"
+KINDS = ("contract", "transpose", "valins", "dtins", "slice", "pyslice", "fftshift", "mf2vec")
+LAWS = "INVARIANT ShiftTwice\nINVARIANT RowSumsOne\nINVARIANT InRange\nINVARIANT PartialPermutation\nINVARIANT MaskOrder\nINVARIANT IsPermutation\nINVARIANT SliceLength\n"
 
 
 def run(ctx):
